@@ -95,7 +95,9 @@ def _summary(out):
 # C05 C07 C08
 
 def run_paths(prop, tier):
-    t = TIERS[tier]
+    t = dict(TIERS[tier])
+    if os.environ.get("VERIF_XP_FAST"):      # development aid (mutant runs): smallest model
+        t.update(cfg="MC_XPath_tiny.cfg", sample=20, rnd=400, groups=150)
     out = C.Outcome(prop, tier)
     wd = C.workdir("xp" + prop)
     try:
